@@ -11,6 +11,9 @@
    prepareEntityFetch / prepareBatchEntityFetch (representation rendering through the C02 walk,
    null / {} / error skipping, de-duplication, batchStats), loadPhase (erroredFetchIDs),
    mergeResult (all error branches), shouldSkipErroredDependencyLocked, astjson MergeValues.
+   The loader modelled is the one WITH the C07 repairs (every failed fetch is recorded as errored,
+   an entity fetch checks the `_entities` count, non-JSON number tokens make the body invalid);
+   C07/ModelPreFix.v keeps the previous mergeResult for the historical refutations.
 
    The subgraph side is a parameter: [exchange : St -> request -> response * St] (state-passing so
    that C16b can thread a cache through the same loader).  Parallel children run in list order
@@ -303,6 +306,49 @@ Definition non2xx (st : N) : bool := ((0 <? st) && (st <? 200)) || (300 <=? st).
 Definition is_nullish (o : option json) : bool := match o with None | Some JNull => true | _ => false end.
 Definition is_entity_kind (k : fkind) : bool := match k with FSingle => false | _ => true end.
 
+(* RFC 8259 number tokens.  parsedResponse rejects a body in which some number is not one: the
+   lenient parser also takes NaN, inf, +1, 01, 1. and .5 for numbers (astjson.Validate on the token) *)
+Fixpoint all_digits (s : bytes) : bool := match s with [] => true | c :: r => is_digit c && all_digits r end.
+Fixpoint span_digits (s : bytes) : bytes * bytes :=
+  match s with
+  | c :: r => if is_digit c then let '(d, t) := span_digits r in (c :: d, t) else ([], s)
+  | [] => ([], [])
+  end.
+Definition exp_ok (s : bytes) : bool :=          (* after e / E *)
+  let s' := match s with c :: r => if (c =? 43) || (c =? 45) then r else s | [] => s end in
+  match s' with [] => false | _ => all_digits s' end.
+Definition frac_exp_ok (s : bytes) : bool :=     (* after the integer part *)
+  match s with
+  | [] => true
+  | c :: r =>
+    if c =? 46 then
+      let '(d, t) := span_digits r in
+      match d with
+      | [] => false
+      | _ => match t with [] => true | e :: t' => ((e =? 101) || (e =? 69)) && exp_ok t' end
+      end
+    else ((c =? 101) || (c =? 69)) && exp_ok r
+  end.
+Definition num_token_ok (s : bytes) : bool :=
+  let s := match s with c :: r => if c =? 45 then r else s | [] => s end in
+  let '(d, t) := span_digits s in
+  match d with
+  | [] => false
+  | [_] => frac_exp_ok t
+  | c :: _ => negb (c =? 48) && frac_exp_ok t
+  end.
+Fixpoint valid_numbers (j : json) : bool :=
+  match j with
+  | JNum raw => num_token_ok raw
+  | JArr l => (fix go (l : list json) : bool := match l with [] => true | x :: r => valid_numbers x && go r end) l
+  | JObj m => (fix go (m : list (bytes * json)) : bool := match m with [] => true | (_, v) :: r => valid_numbers v && go r end) m
+  | _ => true
+  end.
+
+(* renderErrorsFailedToFetch / renderErrorsStatusFallback: the error, and the fetch is recorded as
+   errored so that its dependants are skipped (after any failure, not only a transport error) *)
+Definition fail (s : lstate) (k : N) (f : fetch) : lstate := add_errored (add_error s k f) (f_id f).
+
 (* merge one target in place; astjson returns "changed" for a replaced top-level value, which the
    loader drops, so only an object target is ever updated *)
 Definition merge_target (f : fetch) (s : lstate) (l : rpath) (src : json) : lstate :=
@@ -330,24 +376,33 @@ Fixpoint merge_buckets (f : fetch) (s : lstate) (bs : list (list rpath)) (batch 
 
 Definition merge_result (f : fetch) (res : response) (items : list rpath) (batch : option (list (list rpath)))
            (s : lstate) : lstate :=
-  if rs_err res then add_error s LE_FETCH f else
+  if rs_err res then fail s LE_FETCH f else
   match rs_body res with
-  | BEmpty => add_error s LE_EMPTY f
-  | BInvalid => if non2xx (rs_status res) then add_error s LE_STATUS f else add_error s LE_INVALID f
+  | BEmpty => fail s LE_EMPTY f
+  | BInvalid => if non2xx (rs_status res) then fail s LE_STATUS f else fail s LE_INVALID f
   | BJson resp =>
+    if negb (valid_numbers resp) then                                  (* parsedResponse: not JSON after all *)
+      if non2xx (rs_status res) then fail s LE_STATUS f else fail s LE_INVALID f
+    else
     let rdata := get_loc (f_datapath f) resp in
     let has_errors := match get_loc [PName k_errors] resp with
                       | Some (JArr (_ :: _)) => true
                       | _ => false
                       end in
     let s := if has_errors then add_error s LE_FETCH f else s in      (* mergeErrors, wrapped mode *)
+    let entities := get_loc [PName k_data; PName k_entities] resp in
+    if match f_kind f, entities with
+       | FEntity, Some (JArr l) => negb (Nat.eqb (length l) 1)        (* one representation, one entity *)
+       | _, _ => false
+       end
+    then fail s LE_COUNT f
+    else
     if is_nullish rdata then
-      if is_entity_kind (f_kind f) &&
-         match get_loc [PName k_data; PName k_entities] resp with Some (JArr _) => true | _ => false end
+      if is_entity_kind (f_kind f) && match entities with Some (JArr _) => true | _ => false end
       then s                                                          (* isEmptyEntityFetch: silent *)
-      else if negb has_errors && non2xx (rs_status res) then add_error s LE_STATUS f
-      else if negb has_errors then add_error s LE_SHAPE f
-      else s
+      else if negb has_errors && non2xx (rs_status res) then fail s LE_STATUS f
+      else if negb has_errors then fail s LE_SHAPE f
+      else add_errored s (f_id f)                                     (* errors, no data *)
     else
       match rdata with
       | None => s
@@ -355,18 +410,18 @@ Definition merge_result (f : fetch) (res : response) (items : list rpath) (batch
         match items, batch with
         | [], _ => match rd with
                    | JObj _ => set_data s rd                          (* dataBuffer.Set(responseData) *)
-                   | _ => add_error s LE_SHAPE f
+                   | _ => fail s LE_SHAPE f
                    end
         | [l], None => merge_target f s l rd
         | _, _ =>
           match rd with
-          | JArr [] => add_error s LE_SHAPE f                         (* GetArray() of an empty array is nil *)
+          | JArr [] => fail s LE_SHAPE f                              (* GetArray() of an empty array is nil *)
           | JArr b =>
             match batch with
-            | Some bs => if Nat.eqb (length bs) (length b) then merge_buckets f s bs b else add_error s LE_COUNT f
-            | None => if Nat.eqb (length items) (length b) then merge_pairwise f s items b else add_error s LE_COUNT f
+            | Some bs => if Nat.eqb (length bs) (length b) then merge_buckets f s bs b else fail s LE_COUNT f
+            | None => if Nat.eqb (length items) (length b) then merge_pairwise f s items b else fail s LE_COUNT f
             end
-          | _ => add_error s LE_SHAPE f
+          | _ => fail s LE_SHAPE f
           end
         end
       end
@@ -441,6 +496,7 @@ Inductive fault :=
 Definition k_message : bytes := [109;101;115;115;97;103;101].
 Definition boom : json := JObj [(k_message, JStr [98;111;111;109])].
 Definition b_nan : bytes := [78;97;78].
+Definition k_zz : bytes := [122;122].
 
 Fixpoint nanify (j : json) : json :=
   match j with
@@ -491,7 +547,7 @@ Definition apply_fault (k : fault) (r : response) : response :=
   | FtCountMore => on_body (map_entities (fun l => match rev l with [] => l | x :: _ => l ++ [x] end)) r
   | FtStatusWithData => {| rs_err := false; rs_status := 500; rs_body := rs_body r; rs_cc := rs_cc r |}
   | FtNullEntities => on_body (map_entities (map (fun _ => JNull))) r
-  | FtNaNData => on_body (map_data nanify) r
+  | FtNaNData => on_body (map_data (fun d => match nanify d with JObj m => JObj ((k_zz, JNum b_nan) :: m) | x => x end)) r
   end.
 
 Section Subgraphs.
